@@ -16,6 +16,8 @@ where
     let len_per_elm = <T as FromRO>::Length::to_usize();
     let len_in_bytes = count * len_per_elm;
     let pseudo_random_bytes = X::expand_message(msg, dst, len_in_bytes);
+    #[cfg(pairing_plus_verif)]
+    ::verif_hooks::point(32);
 
     let mut ret = Vec::<T>::with_capacity(count);
     for idx in 0..count {
